@@ -189,11 +189,74 @@ macro_rules! parts {
     }};
 }
 
+/// Every scroll count in ONE call: n numbered lines (n = 0..=N) fed by a single feed_str,
+/// then a non-scrolling call, then a short scrolling one - for each limit. The product
+/// oracle is applied after every call, TextCollector at the end.
+fn count_sweep(ctx: &Ctx, rep: &mut Report) {
+    use rayon::prelude::*;
+    let nmax = ctx.tier.pick(2300usize, 6500usize);
+    let limits: Vec<usize> = match ctx.tier {
+        Tier::Quick => vec![0, 1, 10, 100],
+        Tier::Thorough => vec![0, 1, 2, 3, 9, 10, 11, 20, 100, 1000],
+    };
+    let mut cases: Vec<(usize, usize)> = vec![];
+    for &l in &limits {
+        for n in 0..=nmax {
+            cases.push((l, n));
+        }
+    }
+    let bad: Vec<((usize, usize), String)> = cases
+        .par_iter()
+        .filter_map(|&(l, n)| {
+            let cfg = Cfg::new(6, 3, Some(l));
+            let body: String = (0..n).map(|i| format!("{}\r\n", i)).collect();
+            let ops = [Op::raw(&body), Op::raw("z"), Op::raw("\r\nu\r\nv\r\nw")];
+            let r = crate::engine::guarded(|| {
+                let mut st = Sys.init(&cfg);
+                for (k, op) in ops.iter().enumerate() {
+                    let mut out = Out::default();
+                    Sys.step(&cfg, &mut st, op, Some(&mut out));
+                    if let Some(v) = out.violations.first() {
+                        let d: String = v.detail.chars().take(300).collect();
+                        return Some(format!("after call {} of [{} numbered lines | z | 3 more lines]: {}: {}", k + 1, n, v.oracle, d));
+                    }
+                }
+                let hist: Vec<&Op> = ops.iter().collect();
+                let want = collect_text(None, &cfg, &hist, false);
+                let got = collect_text(Some(l), &cfg, &hist, false);
+                if got != want {
+                    return Some(format!("TextCollector(limit {}) yields {} lines, unlimited {} lines", l, got.len(), want.len()));
+                }
+                None
+            });
+            match r {
+                Ok(None) => None,
+                Ok(Some(d)) => Some(((l, n), d)),
+                Err(p) => Some(((l, n), format!("panic: {}", p))),
+            }
+        })
+        .collect();
+    let runs = cases.len() as u64;
+    rep.evaluations += runs * 3;
+    rep.transitions += runs * 3;
+    rep.traces_validated += runs;
+    rep.distinct_nontrivial += runs;
+    rep.parts.push(serde_json::json!({"part":"scroll-count-sweep","config":"6x3","limits":limits,"max_lines_in_one_call":nmax,"runs":runs,"violating":bad.len()}));
+    println!("part scroll-count-sweep: {} limits x 0..={} lines in one call, {} violating", limits.len(), nmax, bad.len());
+    for ((l, n), d) in bad.iter().take(3) {
+        emit_violation(ctx, rep, "C14", serde_json::json!({"part":"scroll-count-sweep","limit":l,"lines":n,"oracle":"stream-plus-lines-equals-unlimited","observed":d}));
+    }
+    if bad.len() > 3 {
+        rep.violations += bad.len() as u64 - 3;
+    }
+}
+
 pub fn run(ctx: &Ctx) -> Report {
     let mut rep = Report::new();
     let p = parts!(ctx.tier);
     run_part(ctx, &mut rep, &p);
-    rep.rule = "product exploration of (terminal with limit L, unlimited terminal) fed the same op history (no RIS, no resize; alt-screen excursions, scroll regions, DL/IL at the top row, per-char feeds); after every call on the primary screen: lines handed out so far ++ lines() == unlimited lines(), cell-for-cell incl. wrap marks; on the alternate screen nothing may be handed out; at every state TextCollector text is compared across limits and chunkings; non-trivial = calls that hand out at least one line".into();
+    count_sweep(ctx, &mut rep);
+    rep.rule = "product exploration of (terminal with limit L, unlimited terminal) fed the same op history (no RIS, no resize; alt-screen excursions, scroll regions, DL/IL at the top row, per-char feeds); after every call on the primary screen: lines handed out so far ++ lines() == unlimited lines(), cell-for-cell incl. wrap marks; on the alternate screen nothing may be handed out; at every state TextCollector text is compared across limits and chunkings; non-trivial = calls that hand out at least one line; scroll-count-sweep: for each limit, EVERY count n = 0..=N of numbered lines fed in one call, then a non-scrolling call, then three more lines, same oracle after every call plus TextCollector".into();
     rep.assumptions = vec![
         "the caller drains Changes.scrollback completely (dropping it loses lines by the caller's choice)".into(),
         "alternate-screen status tracked syntactically (no truncated sequences in the alphabet)".into(),
@@ -202,6 +265,12 @@ pub fn run(ctx: &Ctx) -> Report {
 }
 
 pub fn replay(ctx: &Ctx, v: &Value) -> bool {
+    if v["part"] == "scroll-count-sweep" {
+        let mut rep = Report::new();
+        let c2 = Ctx { id: ctx.id.clone(), tier: Tier::Thorough, seed: 0, start: ctx.start, known: ctx.known.clone(), replay_dir: ctx.replay_dir.clone() };
+        count_sweep(&c2, &mut rep);
+        return rep.violations > 0;
+    }
     let tier = if v["tier"] == "thorough" { Tier::Thorough } else { Tier::Quick };
     let p = parts!(tier);
     replay_part(ctx, &p, v)
